@@ -177,7 +177,13 @@ func vh_session_close() {
 	s.cancel = func() { cancelled++ }
 	s.isClosing = vBool("already_closing")
 	s.isClosed = s.isClosing && vBool("already_closed")
+	wasClosing := s.isClosing
 	s.Close()
+	if wasClosing {
+		// another Close is running (or has finished): this one must not run the shutdown sequence a second
+		// time (the debouncers' stop() and the pools' Close are not re-entrant)
+		vAssert(cancelled == 0, "C17/session/close-while-another-close-is-in-progress-does-nothing")
+	}
 	if !s.isClosing {
 		vAssert(false, "C17/session/close-marks-closing")
 	}
